@@ -840,6 +840,8 @@ func sortedAfter(w *World, f *ssa.Function, hdr *ssa.BasicBlock, body map[*ssa.B
 }
 
 func rulesC08(w *World, o *Out) {
+
+
 	fl := NewFlow(w)
 	o.Rule("C08.R1", "no process-environment, wall-clock, randomness or runtime-state source, goroutine start or select is reachable (module-restricted VTA reachability) from a transaction / block / governance / wasm / hook entry point, unless its value flows only into logging or telemetry")
 	o.Rule("C08.R2", "every production range over a map is order-insensitive (E0), builds a slice that is sorted before any other use (E1-sorted), or is individually justified; early exits, last-writer-wins assignments, float accumulation and state-mutating calls inside a map range are violations")
@@ -1320,6 +1322,26 @@ func c08Comparators(w *World, o *Out, fl *Flow) {
 			}
 			sort.Strings(kf)
 			_ = st
+			// ... and is a total order: values are compared directly, not through a difference and a tolerance
+			// ("equal within epsilon" is not transitive; the sort result then depends on the input order)
+			var arith []string
+			for _, cs := range CallsIn(cmp) {
+				if cs.Fn != cmp {
+					continue
+				}
+				if cs.Callee.Pkg == "cosmossdk.io/math" {
+					switch cs.Callee.Name {
+					case "Sub", "Abs", "Quo", "Mul", "Add", "Neg", "QuoInt", "MulInt", "Round", "RoundInt", "TruncateInt", "Ceil", "Floor":
+						arith = append(arith, cs.Callee.Recv+"."+cs.Callee.Name)
+					}
+				}
+				if cs.Callee.Pkg == "math" && (cs.Callee.Name == "Abs" || cs.Callee.Name == "Round" || cs.Callee.Name == "Floor") {
+					arith = append(arith, "math."+cs.Callee.Name)
+				}
+			}
+			sort.Strings(arith)
+			o.Check("C08.R2", w.FuncKey(f)+"|comparator compares values exactly", len(arith) == 0, w.Pos(s.Instr.Pos()),
+				"the comparator computes with the compared values ("+strings.Join(arith, ",")+") instead of comparing them: a tolerance makes near ties cyclic, and the order after sorting depends on the (map) order before")
 			o.Check("C08.R2", w.FuncKey(f)+"|comparator breaks ties on the map key", ok, w.Pos(s.Instr.Pos()),
 				"the comparator restoring order after a map range must compare the field filled from the map key ("+strings.Join(kf, ",")+"), otherwise equal-score elements keep map iteration order")
 		}
@@ -1503,3 +1525,4 @@ func zoneSensitiveUse(v ssa.Value, depth int) string {
 	}
 	return ""
 }
+
